@@ -1638,6 +1638,7 @@ class Stream(AbstractStream):
             self._imol.data = other._imol.data
         if phase and self._imol.data.ndim == 1:
             self._imol._phase = other._imol._phase
+        if flow or TP: self._relink_phase_streams()
             
     def unlink(self):
         """
@@ -1680,6 +1681,16 @@ class Stream(AbstractStream):
         imol.data = imol.data.copy()
         self._thermal_condition = self._thermal_condition.copy()
         self.reset_cache()
+        self._relink_phase_streams()
+
+    def _relink_phase_streams(self):
+        # Streams handed out by MultiStream.__getitem__ must follow the
+        # new flow rate data and thermal condition.
+        if isinstance(self, tmo.MultiStream):
+            self.reset_cache()
+            for phase, stream in self._streams.items():
+                stream._imol = self._imol.get_phase(phase)
+                stream._thermal_condition = self._thermal_condition
         
     def copy_like(self, other):
         """
